@@ -148,6 +148,9 @@ def run(tier):
     cl, unrepro = fuzz.classify_artifacts(fb, camp.artifacts)
     for sig, paths in cl.items():
         failures.append((sig, paths[0], ''))
+    # an input that does not finish when it runs alone for a minute (typical: milliseconds) does not return control
+    for sig, paths in fuzz.confirm_hangs(fb, camp.art, None, limit=2 if tier == 'quick' else 8, secs=60).items():
+        failures.append((sig, paths[0], 'the conversion does not return within 60 s when the input runs alone'))
     ev.extra['exhaustive'] = True
     ev.extra['exhaustive_bound'] = 'all 39^k line-kind sequences for k <= %d, 7 writers x 2 modes' % L
     rcode = 0
